@@ -49,6 +49,7 @@ class Facts:
         self.bodies.update(self.xfns)
         self.adts = d['adts']
         self.impls = d['impls']
+        self.root_items = d.get('root_items') or []
         self.nonce = d.get('nonce')
         self.flavours = {}
         self.flavour_consts = {}
@@ -194,8 +195,9 @@ class Graph:
         self._memo = {}
         self._rd_ready = False
         self._rdcache = {}
-        self._onstack = set()
+        self._onstack = {}
         self._cut = 0
+        self._cutmin = 1 << 30
         facts.fn(root)
         self.root_inst, self.entry, self.exits = self._expand(root, None, None, 0, (), 'root')
         self._finish()
@@ -1033,16 +1035,49 @@ class Graph:
                     tgt = self.nodes[tgt].succs[0]
                 # region between O and the switch: everything reachable from O without passing S, another
                 # definition of the tested value (a different constant, or something that is no constant at all)
-                region = self.reachable(O.succs, blocked={sid} | kills | (onodes - {o}))
+                stop = {sid} | kills | (onodes - {o})
+                region = self.reachable(O.succs, blocked=stop)
                 touches = any(sid in self.nodes[r].succs for r in region) or sid in O.succs
                 if not touches or len(region) > 400:
                     continue
+                # a value assigned once and tested inside a loop: behind the matching edge the same test is reached
+                # again with the same origin.  The origin's path is then specialised as a whole - everything it can
+                # reach is cloned, and in the clone every arrival at this test continues behind the matching edge -
+                # instead of being threaded through one more copy of the loop on every pass.  Only when every definition
+                # of the tested value is such a constant: a computed alternative is not among the blockers
+                after = self.reachable([tgt], blocked=stop | {o})
+                again = _allc and tgt not in stop and tgt != o and any(sid in self.nodes[r].succs for r in after)
+                if again:
+                    if __import__("os").environ.get("MQ2_TDBG"):
+                        print("SPECIALISE", sid, self.where(sid), "origin", o, self.where(o), v, len(region | after), 'onodes', sorted(onodes), 'kills', sorted(kills))
+                        # path tgt -> sid
+                        prev = {tgt: None}
+                        q = [tgt]
+                        while q:
+                            x_ = q.pop(0)
+                            if sid in self.nodes[x_].succs:
+                                pth = []
+                                while x_ is not None:
+                                    pth.append(x_)
+                                    x_ = prev[x_]
+                                print('   path', [(p_, self.where(p_)) for p_ in reversed(pth)][:60])
+                                break
+                            for s_ in self.nodes[x_].succs:
+                                if s_ not in prev and s_ not in stop and s_ != o:
+                                    prev[s_] = x_
+                                    q.append(s_)
+                    after = self.reachable([tgt], blocked=stop)
+                    if len(region | after) > 1500:
+                        continue
+                    region = region | after
                 clone = {}
                 for r in region:
                     C = self.nodes[r]
                     N = self._new_node(C.inst, C.fn, C.bb, C.kind)
                     N.stmts, N.term, N.line, N.call, N.edge = C.stmts, C.term, C.line, C.call, C.edge
                     clone[r] = N.id
+                if again:
+                    tgt = clone[tgt]
                 for r in region:
                     C = self.nodes[r]
                     self.nodes[clone[r]].succs = [tgt if s_ == sid else clone.get(s_, s_) for s_ in C.succs]
@@ -1349,9 +1384,15 @@ class Graph:
             return self._memo[key]
         if key in self._onstack:
             self._cut += 1
+            # the shallowest stack entry a cut below the current evaluation refers to
+            if self._onstack[key] < self._cutmin:
+                self._cutmin = self._onstack[key]
             return REC
-        self._onstack.add(key)
+        depth = len(self._onstack)
+        self._onstack[key] = depth
         cut0 = self._cut
+        cutmin0 = self._cutmin
+        self._cutmin = 1 << 30
         ds = self.defs.get(key0)
         if ds and rdset is not None:
             ds = [d for i, d in enumerate(ds) if i in rdset]
@@ -1387,9 +1428,14 @@ class Graph:
                 r = alts[0]
             else:
                 r = ('phi', tuple(alts))
-        self._onstack.discard(key)
-        if self._cut == cut0 or not self._onstack:
+        del self._onstack[key]
+        # the value is independent of the evaluations in progress above this one when no recursion cut below it refers to
+        # one of them (no cut at all, or only cycles closed at or below this entry)
+        if self._cut == cut0 or not self._onstack or self._cutmin >= depth:
             self._memo[key] = r
+            self._cutmin = cutmin0
+        else:
+            self._cutmin = min(cutmin0, self._cutmin)
         return r
 
     def _ev_def(self, d):
